@@ -404,7 +404,10 @@ def main() -> int:
     for rec in extra_report:
         if rec["problems"]:
             notes.append(f"EXTRA module {rec['module']} (not part of this property; never a violation): " + "; ".join(rec["problems"])[:600])
-    if (proof_broken or disagreements or tie_lost):
+    force_search = os.environ.get("VERIF_FORCE_SEARCH") == "1"     # maintainer: exercise the search stream on a clean tree
+    if force_search:
+        notes.append("failing-input search forced by VERIF_FORCE_SEARCH=1 (maintainer run)")
+    if (proof_broken or disagreements or tie_lost or force_search):
         # failing-input search (DESIGN §2.2): bigger budget, oracle on the implementation
         rng2 = random.Random(seed * 7919 + 5)
         extra = list(P.search(rng2, budget(P, tier, True)) if hasattr(P, "search") else P.generate(rng2, budget(P, tier, True), "search"))
